@@ -216,13 +216,16 @@ CLAIMED.update(
 CLAIMED.update(
     {
         "C29": (
-            "GUARD-DOM before the wrapped call (foreign-path test on every recorded name, with same-condition correlation), created-membership dominance for destructive calls, patch-table classification, exit ordering path query, who-may-patch registration",
+            "GUARD-DOM before the wrapped call (foreign-path test on every recorded name, with same-condition correlation), created-membership dominance for destructive calls, patch-table classification, exit ordering path query, who-may-patch registration, abstract interpretation of the wrappers over calling conventions against python's own argument binding and of path normalisation across a chdir",
             "Decides the bookkeeping discipline that makes pre-existing paths safe: in every tracked wrapper each name handed to _record_created was, on every path to the wrapped "
             "call, tested by _is_foreign (refused, or rebound to None) and is not rebound afterwards; destructive wrappers reach the wrapped call only after the created-membership "
             "test; overwriting calls and write-mode opens of foreign paths are refused under exactly the condition under which the path is later recorded; the patch table gives every "
             "destructive entry forget_arg_idx, every overwriting entry overwrites=True and every copying entry record_dst_idx; __exit__ closes the exit stack before the cleanup loop, "
             "deletes only elements of _created through the loop variable and clears the set; every patch is entered on the exit stack; _is_foreign is `exists and not created` with "
-            "only the isolation's own temporary directory exempt. File-system effects through APIs that are not in the patch table are not decided.",
+            "only the isolation's own temporary directory exempt; the tracked wrappers, interpreted around stubs that carry the signatures of the real os / shutil / pathlib callables, test, "
+            "record and forget exactly the values python binds to the path parameters for positional, keyword and mixed calls, and the table's indices name the src / dst / path parameters of "
+            "those signatures; _abspath of a relative name follows the working directory across a chdir with the memoisation of helpers modelled. File-system effects through APIs that are not "
+            "in the patch table (os.symlink, os.link, os.truncate, dir_fd-relative calls inside shutil.rmtree) are not decided.",
             "Trusts the CFG builder; correlation between the refuse-condition and the record-condition is by identical conjunct text over names that are not reassigned.",
             "DESIGN.md §3 C29",
         ),
